@@ -34,7 +34,7 @@ import (
 )
 
 type c27Op struct {
-	K string `json:"k"`           // add | term | gc | get | latest | list | sleep
+	K string `json:"k"`           // add | term | gc | get | latest | list | sleep | probe (the command `bg %J` through the interpreter)
 	J int    `json:"j,omitempty"` // add/term: job index (0-based); get: job id asked for
 	D int    `json:"d,omitempty"` // sleep: milliseconds
 }
@@ -49,7 +49,7 @@ const c27MaxLin = 16
 const c27LinBudget = 200000 // model steps per linearizability search
 
 func init() {
-	register(&Harness{Name: "c27", Gen: genC27, Run: runC27, Shrink: shrinkC27})
+	register(&Harness{Name: "c27", Gen: genC27, Run: runC27, Shrink: shrinkC27, Init: initMurex})
 	propHarness["C27"] = "c27"
 }
 
@@ -103,6 +103,10 @@ func genC27(r *Rand, tier string) Case {
 			op = c27Op{K: "get", J: 1 + r.Intn(w.Jobs+2)}
 			if r.Intn(12) == 0 {
 				op.J = r.Intn(3) - 1 // -1, 0, 1
+			} else if nt == 1 && r.Intn(3) == 0 {
+				// the way a user names a job: `bg %n` (a running job is "not a stopped process", any other
+				// id is an error about the id)
+				op.K = "probe"
 			}
 		case x < 80:
 			op = c27Op{K: "latest"}
@@ -204,6 +208,23 @@ func c27Step(st c27State, in c27In, out c27Out) (c27State, string) {
 				}
 			}
 		}
+	case "probe": // out.Job: -3 the command found a job under that id, -1 it did not
+		owner, unknown := false, false
+		for j := 0; j < c27MaxJobs; j++ {
+			if st.Run&(1<<uint(j)) != 0 {
+				if st.Id[j] == 0 {
+					unknown = true
+				} else if int(st.Id[j]) == in.J {
+					owner = true
+				}
+			}
+		}
+		if out.Job == -3 && !owner && !unknown {
+			return st, "command-found-job-under-free-id"
+		}
+		if out.Job == -1 && owner {
+			return st, "command-did-not-find-running-job"
+		}
 	case "latest":
 		switch {
 		case out.Job == -2:
@@ -283,6 +304,11 @@ func (e c27Ev) String() string {
 			return s + fmt.Sprintf("%s(%s) -> a process that is no job", e.Op.K, arg)
 		}
 		return s + fmt.Sprintf("%s(%s) -> error", e.Op.K, arg)
+	case "probe":
+		if e.Out.Job == -3 {
+			return s + fmt.Sprintf("`bg %%%d` -> a job that is not stopped", e.Op.J)
+		}
+		return s + fmt.Sprintf("`bg %%%d` -> no such job", e.Op.J)
 	case "list":
 		var l []string
 		for id := 1; id <= math.MaxInt8; id++ {
@@ -341,6 +367,9 @@ func runC27(c *Case, e *Env) Outcome {
 	}
 	res := e.Bubble(c.Sched, func() {
 		jobs := lang.NewJobs()
+		saved := lang.Jobs
+		lang.Jobs = jobs // the table the bg/fg/jobs commands look at
+		defer func() { lang.Jobs = saved }()
 		do := func(task, idx int, op c27Op) {
 			ev := c27Ev{Task: task, Idx: idx, Op: op}
 			ev.Out.Job = -1
@@ -364,6 +393,17 @@ func runC27(c *Case, e *Env) Outcome {
 				ev.Call = simrt.Stamp()
 				jobs.GarbageCollect()
 				ev.Ret = simrt.Stamp()
+			case "probe":
+				ev.Call = simrt.Stamp()
+				r := execBlock(fmt.Sprintf("bg %%%d", op.J), "murex/mxsim-c27")
+				ev.Ret = simrt.Stamp()
+				if ct := crashText(r.Out + r.Err + r.ExecErr); ct != "" {
+					fail("internal-panic", "`bg %%%d` reported: %s", op.J, ct)
+				}
+				if strings.Contains(r.Err+r.ExecErr, "not a stopped process") {
+					ev.Out.Job = -3
+				}
+				e.Probe("job-named-through-bg-command")
 			case "get", "latest":
 				var p *lang.Process
 				var err error
